@@ -1,7 +1,7 @@
 (* RunSchema.v — one executable comparison per (schema, values) case: model parser and
    evaluator, reference semantics, and the implementation's recorded observations. *)
 From Coq Require String. Import String.StringSyntax.
-From Statham.Model Require Import Str Json Elem Validate Names Parser Canon Spec6 RunHelpers Unsupported Plain.
+From Statham.Model Require Import Str Json Elem Validate Names Parser Canon Spec6 RunHelpers Unsupported Plain Plain2.
 From Statham.Generated Require Gen_unicode Gen_reserved Gen_constants Gen_parser_tables.
 Local Open Scope string_scope.
 Local Open Scope list_scope.
@@ -71,7 +71,15 @@ Definition run_case (c : scase) : list nat :=
    the fragment with classes of C01_validity_classes_top (Plain.in_fragment, C01_fragment_checker) *)
 Definition run_case_c01 (c : scase) : list nat :=
   run_case c ++ (if plainb (cfg_of c) false 200 (sc_schema c) then [9] else [])
-             ++ (if in_fragment (cfg_of c) true 200 (sc_schema c) then [10] else []).
+             ++ (if in_fragment (cfg_of c) true 200 (sc_schema c) then [10] else [])
+             (* 11: the fragment with revisited schema objects (C01_validity_classes_revisits): walk2 and the
+                reflexivity of the classes of the final parse state *)
+             ++ (if in_fragment2 (cfg_of c) 200 (sc_schema c)
+                 then match parse_element (cfg_of c) (sc_schema c) [] with
+                      | POk (_, st') => if refl_stateb st' then [11] else []
+                      | PErr _ => [11]
+                      end
+                 else []).
 
 (* diagnostic view *)
 Definition show_case (c : scase) :=
